@@ -145,6 +145,9 @@ def damage(data: bytes, kind: str, rng: random.Random) -> bytes:
                 b"- alpha\n  * k::\n  * ::",
                 b"- alpha\n  * 240101 240101#00\n  * k:: v",
                 b"o alpha\n    - k:: v\n  * \n    - 240101#00",
+                b"- alpha\n  november\n     -   * bp0:: oscar",
+                b"- alpha\n  * x\n    - \n      + k:: v",
+                b"- alpha k:: v\n  * a\n    -  \n  * b\n      +  ",
             ]
         )
         return b"\n".join(lines[:i] + item.split(b"\n") + lines[i:])
